@@ -107,7 +107,7 @@ Definition op_code (wsk csk : list sev) (o : wop) : list winstr :=
   | OCtl tmo f => frame_code csk tmo f ++ [WEnd]
   | OMsg fs => WPrep :: flat_map (frame_code wsk false) fs ++ [WEnd]
   | OCloseConn => [WCloseT; WEnd]
-  | OPing f => frame_code csk true f ++ [WEnd]
+  | OPing f => frame_code csk false f ++ [WEnd]   (* the handler's deadline (writeWait = 1 s) is taken as never expiring *)
   end.
 Definition prog_code (wsk csk : list sev) (ops : list wop) : list winstr :=
   flat_map (op_code wsk csk) ops.
